@@ -63,6 +63,7 @@ INLINE = {
     'rsatoolbox.util.rdm_utils.add_pattern_index',
     'rsatoolbox.util.inference_util.default_k_pattern',
     'rsatoolbox.util.inference_util.default_k_rdm',
+    'rsatoolbox.util.data_utils._own',      # entry.copy() for array entries: executed with its body (value-equal copy)
 }
 
 
